@@ -105,9 +105,13 @@ def run_case(spec, work):
     if r['exception'] is not None:
         sig, last = oracles.exception_signature(r['traceback'],
                                                 r.get('stderr'))
-        return {'violations': [], 'counters': {'runs_raised': 1},
-                'inconclusive': f'mapping raised ({sig}): {last}',
-                'features': None, 'nontrivial': False}
+        # the generated inputs satisfy every precondition: a run that
+        # raises produced no output to recompute
+        return {'violations': [{
+                    'sig': f'C02:mapping-raised-on-valid-input:{sig}',
+                    'msg': f'mapping raised: {last}'}],
+                'counters': {'runs_raised': 1},
+                'features': ['raised'], 'nontrivial': True}
     js = r['json']
     viol, node_genes = vote_oracle.check_votes(
         w, js['results'], r['trace'], counters, dontcare)
